@@ -103,12 +103,16 @@ def differs(a, b):
 class Verdict:
     def __init__(s): s.status = 'holds'; s.queries = 0; s.sat = 0; s.unsat = 0; s.unknown = 0; s.time = 0.0; s.cex = None; s.why = None
 
-def decide(impl_pc, impl_outcome, ref_cases, verdict, timeout_ms=20000, on_sat=None, ground=None):
+def decide(impl_pc, impl_outcome, ref_cases, verdict, timeout_ms=20000, on_sat=None, ground=None, crash_everywhere=False):
     """for one implementation path: is there an input on this path for which the reference outcome differs?
     One query: pc /\ OR_i (refcond_i /\ outcome differs from refoutcome_i)."""
     disj = []; which = []
     for (rpc, ro) in ref_cases:
-        if isinstance(ro, tuple) and ro and ro[0] == 'ref_abort': continue
+        if isinstance(ro, tuple) and ro and ro[0] == 'ref_abort':
+            # inputs for which the reference prescribes no outcome: nothing to compare - except, where the harness says so, that the implementation must not crash there either
+            if crash_everywhere and isinstance(impl_outcome, (tuple, list)) and impl_outcome and impl_outcome[0] == 'crash':
+                disj.append(z3.And(*rpc) if len(rpc) > 1 else (rpc[0] if rpc else z3.BoolVal(True))); which.append((rpc, ro))
+            continue
         d = differs(impl_outcome, ro)
         if d is False: continue
         conj = list(rpc) + ([] if d is True else [d])
